@@ -28,7 +28,7 @@ opkinds! {
     TupToArr = 6, "TupToArr";         // harness only
     FromIterStub = 7, "FromIterStub"; // Arr -> V::from_iter(stub source); a = source mode (0 exact, 1 early EOF, 2 surplus, 3 panics, 4 not fused: one None then more), b = j | hint<<8, f = default-panic k
     VDefault = 8, "VDefault";         // * -> V::default(); f = default-panic k
-    VIntoIter = 9, "VIntoIter";       // v.into_iter()
+    VIntoIter = 9, "VIntoIter";       // a = 0 v.into_iter() (method syntax) | 1 IntoIterator::into_iter(v) (what a for loop does)
     // ---- on a vector value ----
     SliceRead = 10, "SliceRead";       // a = route
     SliceSwap = 11, "SliceSwap";       // a = route, b = i | j<<8
